@@ -112,7 +112,8 @@ struct Lit
 
 static bool isdig(char c) { return c >= '0' && c <= '9'; }
 
-static Lit parse_literal(const std::string& s)
+// wantValue = false: grammar check and features only (the exact value of 1e99999 has 100 000 digits; it is computed on demand)
+static Lit parse_literal(const std::string& s, bool wantValue = true)
 {
    Lit L;
    L.s = s;
@@ -130,6 +131,7 @@ static Lit parse_literal(const std::string& s)
       mpz_class num(L.ip, 10), den(L.den, 10);
       L.mantzero = num == 0;
       if(den == 0) { L.denzero = true; return L; }
+      if(!wantValue) return L;
       L.value = Q(num, den);
       L.value.canonicalize();
       if(L.neg) L.value = -L.value;
@@ -156,6 +158,7 @@ static Lit parse_literal(const std::string& s)
    L.E = L.hasexp ? atol(L.ed.c_str()) * (L.expneg ? -1 : 1) : 0;
    mpz_class M(L.ip + L.fp, 10);
    L.mantzero = M == 0;
+   if(!wantValue) return L;
    L.value = Q(M) * qpow10(L.E - (long)L.fp.size());
    L.value.canonicalize();
    if(L.neg) L.value = -L.value;
@@ -289,6 +292,38 @@ static uint64_t run_literal(const Lit& L, int ctx, Ctx& c)
    bool mps = (ctx == 2 || ctx == 4), rat = (ctx == 1 || ctx == 2);
    std::string path = wfile(mps ? ".mps" : ".lp");
    write_literal_file(path, mps, L.s);
+   if(rat)
+   {
+      // Does the direct conversion of this literal raise SIGFPE (observed, not predicted)?  Then the file is first read in a
+      // child process with default signal actions and the way the child ends is the observation; nothing is leaked here.
+      bool trapped = !guarded([&]() { try { Rational t = ratFromString(L.s.c_str()); (void)t; } catch(const std::exception&) {} }, keepfd);
+      if(trapped)
+      {
+         c.count("lit.file_reads_in_child_process");
+         fflush(stdout);
+         pid_t pid = fork();
+         if(pid == 0)
+         {
+            for(int sg : {SIGFPE, SIGABRT, SIGSEGV, SIGBUS, SIGILL}) signal(sg, SIG_DFL);
+            SoPlex* Bc = new SoPlex;
+            quiet(*Bc);
+            Bc->setIntParam(SoPlex::READMODE, SoPlex::READMODE_RATIONAL);
+            Bc->setIntParam(SoPlex::SYNCMODE, SoPlex::SYNCMODE_AUTO);
+            bool okc = Bc->readFile(path.c_str(), nullptr, nullptr, nullptr);
+            _exit(okc ? 0 : 1);
+         }
+         int st = 0;
+         if(pid > 0) waitpid(pid, &st, 0);
+         if(pid > 0 && WIFSIGNALED(st))
+         {
+            int sg = WTERMSIG(st);
+            c.count(std::string("lit.") + rd + (sg == SIGFPE ? ".sigfpe" : ".killed_by_signal"));
+            c.violation(std::string("literal-crash:") + (sg == SIGFPE ? "SIGFPE" : "sig" + std::to_string(sg)) + "@" + rd + "[" + tag_crash(L) + "]", cs,
+                        std::string("a process that calls readFile (rational mode) on a ") + (mps ? "MPS" : "LP") + " file containing the literal " + L.s + " is killed by signal " + std::to_string(sg) + " raised inside GMP");
+            return 4;
+         }
+      }
+   }
    // the reading object lives on the heap: if GMP raises SIGFPE in the middle of readFile it is abandoned, not destroyed
    SoPlex* Bp = new SoPlex;
    SoPlex& B = *Bp;
@@ -384,7 +419,7 @@ static uint64_t run_literal(const Lit& L, int ctx, Ctx& c)
    return h;
 }
 
-static void enumerate_literals(int maxlen, std::vector<Lit>& out, uint64_t& strings, uint64_t& zeroden)
+static void enumerate_literals(int maxlen, std::vector<std::string>& out, uint64_t& strings, uint64_t& zeroden)
 {
    int na = (int)strlen(ALPHA);
    strings = 0;
@@ -397,8 +432,8 @@ static void enumerate_literals(int maxlen, std::vector<Lit>& out, uint64_t& stri
       {
          ++strings;
          for(int k = 0; k < len; ++k) s[k] = ALPHA[d[k]];
-         Lit L = parse_literal(s);
-         if(L.valid) { if(L.denzero) ++zeroden; else out.push_back(L); }
+         Lit L = parse_literal(s, false);
+         if(L.valid) { if(L.denzero) ++zeroden; else out.push_back(s); }
          int k = len - 1;
          while(k >= 0 && ++d[k] == na) { d[k] = 0; --k; }
          if(k < 0) break;
@@ -406,7 +441,7 @@ static void enumerate_literals(int maxlen, std::vector<Lit>& out, uint64_t& stri
    }
 }
 
-static void exponent_family(std::vector<Lit>& out)
+static void exponent_family(std::vector<std::string>& out)
 {
    const char* mant[] = {"1", "-1", "1.5", ".5", "-0.25", "9", "0", "123456789012345678901234567890", "0.000000000000000000000000000001",
                          "1.00000000000000000000000000001", "-999999999999999999999999999999.5", "4.9406564584124654", "1.7976931348623157", "2.2250738585072011"
@@ -419,13 +454,13 @@ static void exponent_family(std::vector<Lit>& out)
             {
                if(e < 0 && sf == 1) continue;
                std::string s = std::string(m) + ec + (e < 0 ? "-" : sf ? "+" : "") + std::to_string(e < 0 ? -e : e);
-               Lit L = parse_literal(s);
-               if(L.valid && !L.denzero) out.push_back(L);
+               Lit L = parse_literal(s, false);
+               if(L.valid && !L.denzero) out.push_back(s);
             }
    for(const char* f : {"123456789012345678901234567890/3", "1/123456789012345678901234567890", "-10/4", "+7/7", "0/5", "22/7", "100000000000000000000/100000000000000000001"})
    {
-      Lit L = parse_literal(f);
-      if(L.valid && !L.denzero) out.push_back(L);
+      Lit L = parse_literal(f, false);
+      if(L.valid && !L.denzero) out.push_back(f);
    }
 }
 
@@ -1154,27 +1189,27 @@ int main(int argc, char** argv)
    // ---------------- (a) literals ----------------
    int L = thorough ? 7 : 6;
    if(!args.get("L").empty()) L = atoi(args.get("L").c_str());
-   std::vector<Lit> lits;
+   std::vector<std::string> lits;
    uint64_t nstrings = 0, nzeroden = 0;
    enumerate_literals(L, lits, nstrings, nzeroden);
    fprintf(stderr, "[C12] literals: %llu strings of length <= %d over a 10-letter alphabet, %zu match the grammar (+%llu with a zero denominator, skipped)\n",
            (unsigned long long)nstrings, L, lits.size(), (unsigned long long)nzeroden);
-   auto litsfx = [&](const std::vector<Lit>& v)
+   auto litsfx = [&](const std::vector<std::string>& v)
    {
-      return [&v](uint64_t idx, uint64_t) { return std::string("@") + CTXNAME[idx % NCTX] + "[" + tag_crash(v[idx / NCTX]) + "]"; };
+      return [&v](uint64_t idx, uint64_t) { return std::string("@") + CTXNAME[idx % NCTX] + "[" + tag_crash(parse_literal(v[idx / NCTX], false)) + "]"; };
    };
    if(want("literals"))
    rep.phase("literals length<=" + std::to_string(L) + " x 5 readers", lits.size() * NCTX, [&](uint64_t idx, int, Ctx & c) -> uint64_t
    {
-      return run_literal(lits[idx / NCTX], (int)(idx % NCTX), c);
-   }, [&](uint64_t idx, uint64_t) { return lit_case(lits[idx / NCTX], (int)(idx % NCTX)); }, o, litsfx(lits));
-   std::vector<Lit> xl;
+      return run_literal(parse_literal(lits[idx / NCTX]), (int)(idx % NCTX), c);
+   }, [&](uint64_t idx, uint64_t) { return "L|ctx=" + std::to_string(idx % NCTX) + "|lit=" + lits[idx / NCTX]; }, o, litsfx(lits));
+   std::vector<std::string> xl;
    exponent_family(xl);
    if(want("exponent"))
    rep.phase("exponent / long-mantissa family x 5 readers", xl.size() * NCTX, [&](uint64_t idx, int, Ctx & c) -> uint64_t
    {
-      return run_literal(xl[idx / NCTX], (int)(idx % NCTX), c);
-   }, [&](uint64_t idx, uint64_t) { return lit_case(xl[idx / NCTX], (int)(idx % NCTX)); }, o, litsfx(xl));
+      return run_literal(parse_literal(xl[idx / NCTX]), (int)(idx % NCTX), c);
+   }, [&](uint64_t idx, uint64_t) { return "L|ctx=" + std::to_string(idx % NCTX) + "|lit=" + xl[idx / NCTX]; }, o, litsfx(xl));
 
    // ---------------- (b) round trips ----------------
    auto base8 = [](int k) { RTCfg c; c.fmt = k & 1; c.mode = (k >> 1) & 1; c.wzo = (k >> 2) & 1; return c; };
